@@ -176,7 +176,9 @@ func (p *Path) pickNext(exclude *Thread) *Thread {
 	if len(cands) == 0 {
 		return nil
 	}
-	if len(cands) == 1 {
+	if len(cands) == 1 || p.detSched {
+		// deterministic mode: at a blocking point the lowest-numbered runnable thread continues; the harness
+		// supplies the nondeterminism that matters explicitly (message delivery order, preemptions)
 		return cands[0]
 	}
 	c := p.decideCtl(len(cands))
